@@ -2,6 +2,7 @@
     [logout_table] is the complete decision table of logoutHandleFunc, proved by symbolic execution of the chain go2v
     extracts from logout.go for all requests, metadata and instants; the statements below are read off it. *)
 From Saml Require Import Base.Bytes Idp.FactTypes Gen.Facts Idp.Sso Idp.Logout Idp.Deliver Proofs.LogoutProofs.
+From Saml Require Import Idp.BuilderTypes Idp.Builder Idp.BuiltDoc.
 From Saml Require Import Xml.SchemaTypes Xml.Schema Gen.Schema Xml.SamlSpec.
 
 Definition reply_msg (r : lreply) : option lmsg := match r with LBody m => Some m | LPost _ _ m => Some m | LHttp _ => None end.
@@ -94,9 +95,23 @@ Proof. exact lsend_from_source. Qed.
 Theorem C13_schema : forallb (conforms xml_schema) saml_spec = true.
 Proof. exact saml_spec_conforms. Qed.
 
+(** the LogoutResponse itself, from the source of logout_response.go: InResponseTo echoes the request ID, Destination is
+    the logout URL, Issuer the IdP's entity ID, the status the one given (Success for the successful builder) *)
+Theorem C13_built_response : forall reqid url issuer reason message id1 rest issue until,
+  (exists d, built_value "makeFailedLogoutResponse" (Some (logout_rec reqid url issuer)) [DStr reason; DStr message; DStr (b "f")] (id1 :: rest) issue until = Some (d, rest) /\
+     at_ d ["Id"%string] = Some (DStr id1) /\ at_ d ["InResponseTo"%string] = Some (DStr reqid) /\ at_ d ["Destination"%string] = Some (DStr url) /\
+     at_ d ["Issuer"; "Text"]%string = Some (DStr issuer) /\ at_ d ["IssueInstant"%string] = Some (DStr issue) /\
+     at_ d ["Status"; "StatusCode"; "Value"]%string = Some (DStr reason) /\ at_ d ["Status"; "StatusMessage"]%string = Some (DStr message)) /\
+  (exists d, built_value "makeSuccessfulLogoutResponse" (Some (logout_rec reqid url issuer)) [DStr (b "f")] (id1 :: rest) issue until = Some (d, rest) /\
+     at_ d ["Id"%string] = Some (DStr id1) /\ at_ d ["InResponseTo"%string] = Some (DStr reqid) /\ at_ d ["Destination"%string] = Some (DStr url) /\
+     at_ d ["Issuer"; "Text"]%string = Some (DStr issuer) /\ at_ d ["IssueInstant"%string] = Some (DStr issue) /\
+     at_ d ["Status"; "StatusCode"; "Value"]%string = Some (DStr (b "urn:oasis:names:tc:SAML:2.0:status:Success"))).
+Proof. exact logout_response_fields. Qed.
+
 Print Assumptions C13_success_iff.
 Print Assumptions C13_echo.
 Print Assumptions C13_target.
 Print Assumptions C13_parameters_read.
 Print Assumptions C13_delivery_from_source.
 Print Assumptions C13_schema.
+Print Assumptions C13_built_response.
